@@ -54,7 +54,9 @@ pub struct QRespB {
 
 pub type QResultB<E> = Result<QRespB, E>;
 
+// (unknown members are refused: a decode error then echoes the offending name, however long it is)
 #[cosmwasm_schema::cw_serde]
+#[serde(deny_unknown_fields)]
 pub struct Nested {
     pub a: u32,
     pub b: String,
